@@ -12,7 +12,7 @@ Statement: {statement}
 Quantifier: {quant}
 Why the existing tests cannot settle it: {why}
 
-Your task: produce ONE realistic change to the repository's non-test Go source (a plausible refactoring slip, optimisation, mis-merged condition, off-by-one, dropped check, reordered statement...) that BREAKS this property while the code still compiles and the existing tests of the touched package and its dependants still pass. It must be a change a reviewer could plausibly miss, not sabotage like deleting a function body. {avoid}
+Your task: produce ONE realistic change to the repository's non-test Go source (a plausible refactoring slip, optimisation, mis-merged condition, off-by-one, dropped check, reordered statement...) that BREAKS this property while the code still compiles and the existing tests of the touched package and its dependants still pass. It must be a change a reviewer could plausibly miss, not sabotage like deleting a function body. Prefer a change that needs something specific to manifest (a particular interleaving, a crash or fault at a particular point, a multi-step sequence of operations, an unusual input, or two cooperating sites that each look fine alone), not one that ordinary use would expose at once. {avoid}
 
 Deliver, inside {wt}:
  1. the change applied in the working tree, and `git diff > {wt}/patch.diff` (source change only, no test files in the diff);
